@@ -1,4 +1,5 @@
 import DFV.Model.C04
+import DFV.Model.Transform
 /-!
 C05 model: `Field.grad`, `Field.div`, `Field.curl`, `Field.laplace` exactly as `field.py`
 composes them from `Field.diff` (model: `DFV.C04.diff`), component access
@@ -7,9 +8,10 @@ composes them from `Field.diff` (model: `DFV.C04.diff`), component access
 Every intermediate field goes through the constructor path (`vdims` setter followed by
 the `vdim_mapping` setter), because that is where labels and mapping of the results are
 decided.  Also the `vdims` / `vdim_mapping` setters on an existing field (mapping
-maintenance when labels change), and one quarter turn `Field.rotate90(ax1, ax2)` (`k = 1`,
+maintenance when labels change), one quarter turn `Field.rotate90(ax1, ax2)` (`k = 1`,
 about the region centre, copy form: `Region.rotate90`, `Mesh.rotate90`, `np.rot90`, the
-quarter-turn matrix with its exact entries) as far as the commutation claim needs it.
+quarter-turn matrix with its exact entries) and `Field.rotate90(ax1, ax2, k)` for any integer `k`
+(`rot90FldK`, code-shaped: computed in one go like the code) as far as the commutation claim needs them.
 Core Lean only.
 
 The code-shaped layer (what the driver runs) comes first; the spec layer at the end holds
@@ -20,8 +22,8 @@ against (`D`, `sumTo`, `lineD`, `DimsOk`, `Plain`, `FullyValid`, `ExactMesh`, `S
 Not modelled: the `hasattr` test of the `vdims` setter (labels that collide with
 attribute names of `Field` are refused by the code; the model assumes labels are not
 such names), dtype, norm, the checks of the `subregions` setter when a mesh with subregions
-is rotated (their corners are rotated, nothing is re-validated), `rotate90` for `k ≠ 1`,
-with an explicit reference point or in place.
+is rotated (their corners are rotated, nothing is re-validated), `rotate90` with an explicit
+reference point or in place (C12 / C13 model those).
 -/
 namespace DFV.C05
 open DFV
@@ -412,6 +414,66 @@ def rot90Fld (f : Fld) (da db : String) : M Fld :=
       else mkFld mesh' f.nvdim (rot90Arr f.data a b) (rot90Arr f.valid a b) f.vdims (some f.vmap) f.unit
     | _, _ => .error .value
 
+/-- `n` successive quarter turns: `f.rotate90(ax1, ax2).rotate90(ax1, ax2)…` (copy form, each about
+the centre of the region it is applied to — which a turn about the centre does not move) -/
+def rotIter (da db : String) : Nat → Fld → M Fld
+  | 0, f => .ok f
+  | n + 1, f =>
+    match rotIter da db n f with
+    | .error e => .error e
+    | .ok R => rot90Fld R da db
+
+/-! ## `rotate90` with any integer `k`, code-shaped (the quarter-turn primitives `cosq`, `sinq`,
+`rotCoord`, `rotUnits`, `rotN`, `rot90` (= `np.rot90`), `rotVec` are those of `Model/Transform.lean`) -/
+
+/-- `bc` after `k` quarter turns: the two axis names are exchanged for odd `k` only -/
+def rotBcK (bc da db : String) (k : Int) : String := if T.isOdd k then rotBc1 bc da db else bc
+
+/-- `Region.rotate90(ax1, ax2, k, reference_point=ref)` (copy form): both corners are turned by the
+exact matrix of `k` quarter turns, the constructor re-normalises them; units exchanged for odd `k` -/
+def rotRegionK (r : Region) (a b : Nat) (k : Int) (ref : List Rat) : M Region :=
+  Region.mk? (tab r.ndim (T.rotCoord r.pmin ref a b k)) (tab r.ndim (T.rotCoord r.pmax ref a b k))
+    (some r.dims) (some (T.rotUnits r.units a b k)) r.tol
+
+/-- `Mesh.rotate90(ax1, ax2, k)` (copy form, about the region's centre) -/
+def rotMeshK (m : Mesh) (da db : String) (k : Int) : M Mesh :=
+  if da = db then .error .value
+  else
+    match indexOf? m.region.dims da, indexOf? m.region.dims db with
+    | some a, some b =>
+      match rotRegionK m.region a b k m.region.center with
+      | .error e => .error e
+      | .ok r =>
+        match mapE (fun (s : String × Region) =>
+            match rotRegionK s.2 a b k m.region.center with
+            | .error e => .error e
+            | .ok r' => .ok (s.1, r')) m.subs with
+        | .error e => .error e
+        | .ok subs =>
+          match Mesh.mkN? r (T.rotN m.n a b k) (rotBcK m.bc da db k) with
+          | .error e => .error e
+          | .ok m' => .ok { m' with subs := subs }
+    | _, _ => .error .value
+
+/-- `Field.rotate90(ax1, ax2, k)` for ANY integer `k` (negative included), about the region centre,
+copy form, as the code computes it — in one go: the turned mesh, `np.rot90(array, k)` and
+`np.rot90(valid, k)`, the two in-plane components (found through `_r_dim_mapping`) multiplied by
+the matrix of `cos/sin(k·π/2)` (exact values), the constructor. -/
+def rot90FldK (f : Fld) (da db : String) (k : Int) : M Fld :=
+  match rotMeshK f.mesh da db k with
+  | .error e => .error e
+  | .ok mesh' =>
+    match indexOf? f.mesh.region.dims da, indexOf? f.mesh.region.dims db with
+    | some a, some b =>
+      if 1 < f.nvdim then
+        match (rDimLast f da).bind f.vdimIndex, (rDimLast f db).bind f.vdimIndex with
+        | some v1, some v2 =>
+          mkFld mesh' f.nvdim ((T.rot90 f.data a b k).map fun v => T.rotVec v v1 v2 k)
+            (T.rot90 f.valid a b k) f.vdims (some f.vmap) f.unit
+        | _, _ => .error .runtime
+      else mkFld mesh' f.nvdim (T.rot90 f.data a b k) (T.rot90 f.valid a b k) f.vdims (some f.vmap) f.unit
+    | _, _ => .error .value
+
 /-! ## spec layer: index-level quantities the property theorems are stated against -/
 
 /-- is axis `ax` a periodic direction of the mesh of `f` (as `Field.diff` decides it) -/
@@ -545,5 +607,28 @@ structure IsRot90 (f R : Fld) (a b : Nat) : Prop where
   h_e : ∀ e, e ≠ a → e ≠ b → R.mesh.cellAt e = f.mesh.cellAt e
   valid : ∀ i, ∃ j, R.valid.get i = f.valid.get j
   nvdim : R.nvdim = f.nvdim
+
+/-! ### spec layer: fields that differentiation cannot tell apart -/
+
+/-- periodicity of an axis, read off the mesh (`periodic f ax` is `perM f.mesh ax`) -/
+def perM (m : Mesh) (ax : Nat) : Bool := m.bc.toList.any fun ch => String.singleton ch == m.region.dims.getD ax ""
+
+/-- two meshes that differentiation cannot tell apart: same axis names, and along every axis the
+same cell count, cell size and periodicity -/
+def MeshSim (m1 m2 : Mesh) : Prop :=
+  m1.ndim = m2.ndim ∧ m1.region.dims = m2.region.dims ∧
+  ∀ e, e < m1.ndim → m1.nAt e = m2.nAt e ∧ m1.cellAt e = m2.cellAt e ∧ perM m1 e = perM m2 e
+
+/-- `X` and `Y` are the same field as far as the differential operators can tell: meshes alike
+(`MeshSim`), same component count, labels and mapping, and the same values and validity flags at
+every multi-index of the right length (they may differ as functions on ill-formed indices, which
+no operator reads) -/
+structure Sim (X Y : Fld) : Prop where
+  mesh : MeshSim X.mesh Y.mesh
+  nvdim : X.nvdim = Y.nvdim
+  vdims : X.vdims = Y.vdims
+  vmap : X.vmap = Y.vmap
+  data : ∀ i, i.length = X.mesh.ndim → ∀ c, (X.data.get i).getD c 0 = (Y.data.get i).getD c 0
+  valid : ∀ i, i.length = X.mesh.ndim → X.valid.get i = Y.valid.get i
 
 end DFV.C05
